@@ -14,7 +14,7 @@ BUDGET = {"quick": 192, "thorough": 6000}
 LEVEL = "exploration"
 TECHNIQUE = "property-based metamorphic testing (Hypothesis): pytree-vs-flat, permuted-vs-original, jitted-vs-eager, vmapped-vs-single solves"
 LEVEL_TEXT = (
-    "Generated problems wrapped into nested dict / tuple / namedtuple states with leaves of rank 0..3, permutations of <= 4 components, "
+    "Generated problems wrapped into nested dict / tuple / namedtuple / bare-array states with leaves of rank 0..3 (including matrix- and tensor-valued leaves with several non-unit axes), permutations of up to 6 components, "
     "batches of 2-4 parameter sets whose members need 1x..10x different step counts, three factorisations, fixed-grid and adaptive "
     "routines, filter and smoothers. (a) The pytree solve must equal the flattened solve numerically and return means/standard deviations "
     "in the caller's structure with a leading time axis of the requested length; (b) permuting components permutes the solution; (c) "
@@ -27,7 +27,7 @@ RULE = (
     "non-trivial = nested tree with >= 2 leaves of different rank, or batch step counts differing by >= 2x; distinct by JSON hash"
 )
 ASSUMPTIONS = ["jacobian_materialize(); IWP priors; x64"]
-REQUIRED_LABELS = ["rel:pytree", "rel:permutation", "rel:jit", "rel:vmap", "fact:dense", "fact:isotropic", "fact:blockdiag", "adaptive", "fixed_grid", "vmap:steps_differ"]
+REQUIRED_LABELS = ["rel:pytree", "rel:permutation", "rel:jit", "rel:vmap", "fact:dense", "fact:isotropic", "fact:blockdiag", "adaptive", "fixed_grid", "vmap:steps_differ", "leaf:matrix"]
 MAX_INCONCLUSIVE = 0.3
 
 Point = collections.namedtuple("Point", ["p", "q"])
@@ -36,7 +36,11 @@ Point = collections.namedtuple("Point", ["p", "q"])
 TEMPLATES = {
     2: [("dict_scalar_vec", [(), (1,)]), ("tuple_mat", [(1, 1), (1,)]), ("nt_scalars", [(), ()])],
     3: [("dict_scalar_vec", [(), (2,)]), ("tuple_mat", [(2, 1), (1,)]), ("nested", [(1,), (), (1, 1, 1)])],
-    4: [("dict_scalar_vec", [(), (3,)]), ("tuple_mat", [(2, 1), (2,)]), ("nested", [(2,), (), (1, 1, 1)]), ("rank3", [(1, 2, 1), (2,)])],
+    4: [("dict_scalar_vec", [(), (3,)]), ("tuple_mat", [(2, 1), (2,)]), ("nested", [(2,), (), (1, 1, 1)]), ("rank3", [(1, 2, 1), (2,)]), ("bare", [(2, 2)])],
+    # leaves with two or more non-unit axes (matrix / tensor valued states): row-major vs column-major flattening differs only here
+    5: [("tuple_mat", [(2, 2), (1,)]), ("dict_scalar_vec", [(), (4,)]), ("nested", [(2,), (), (1, 2, 1)]), ("rank3", [(1, 2, 2), (1,)])],
+    6: [("tuple_mat", [(2, 2), (2,)]), ("bare", [(2, 3)]), ("rank3", [(2, 1, 2), (2,)]), ("nested", [(3,), (), (2, 1, 1)]), ("bare", [(1, 3, 2)]),
+        ("dict_scalar_vec", [(2,), (2, 2)])],
 }
 
 
@@ -48,6 +52,8 @@ def _pack(name, shapes, v):
         size = int(np.prod(sh)) if sh else 1
         leaves.append(jnp.reshape(v[k : k + size], sh))
         k += size
+    if name == "bare":
+        return leaves[0]
     if name == "dict_scalar_vec":
         return {"a": leaves[0], "b": leaves[1]}
     if name == "tuple_mat":
@@ -73,7 +79,7 @@ def strategy(ctx):
     for _ in range(size):
         cfg = ssmcase.draw_structure(rng, strategies=("filter", "fixedinterval", "fixedpoint"), nmax=4, dmax=4, steps=(3, 6), inits=("exact", "inexact"),
                                      calibs=("none", "mle", "dynamic"), orders=(1,))
-        cfg["d"] = int(rng.integers(2, 5))
+        cfg["d"] = int(rng.integers(2, 7))
         cfg["cinit"] = False
         cfg["adaptive"] = cfg["strategy"] == "fixedpoint" or bool(rng.integers(0, 2)) and cfg["strategy"] == "filter"
         if cfg["strategy"] == "fixedinterval":
@@ -203,6 +209,21 @@ def check_case(case):
     if not np.all(np.isfinite(base_mean)):
         raise common.Inconclusive("solve not finite (method limit at this tolerance)")
     base_std = base["std"]
+    # conditioning of the problem itself: the same compiled solve on inputs perturbed by 1e-13 (relative). A case whose solution
+    # moves by more than 1% of the comparison tolerance under such a perturbation (diverging solves with calibrated scales of 1e12,
+    # borderline accept/reject decisions) cannot distinguish a defect from rounding and is inconclusive.
+    pat = 1.0 + 1e-13 * np.where(np.arange(np.asarray(tc).size).reshape(np.asarray(tc).shape) % 2 == 0, 1.0, -1.0)
+    args_p = (args[0] * (1.0 + 1e-13), jnp.asarray(np.asarray(tc) * pat)) + args[2:]
+    k0 = (sk.structure_key(cfg), "flat", adaptive, N)
+    with common.lib_call("solve[flat, perturbed]"):
+        base_p = jax.tree.map(np.asarray, _CACHE[k0](*args_p))
+    base_p_mean = np.stack([np.asarray(m) for m in base_p["mean"]], axis=1)
+    if not np.array_equal(base_p["num_steps"], base["num_steps"]):
+        raise common.Inconclusive("ill-conditioned case: a 1e-13 perturbation of the inputs changes the number of steps")
+    cond = max(_rel_err(base_p_mean[:, i], base_mean[:, i]) for i in range(n))
+    res.metric("conditioning(1e-13 perturbation)", cond)
+    if not cond <= 1e-8:
+        raise common.Inconclusive("ill-conditioned case: a 1e-13 perturbation of the inputs changes the solution by more than 1e-8")
     # standard deviations that are zero in exact arithmetic (noise-free observed coefficients) are
     # rounding noise: compare them relative to the magnitude of the coefficient's mean
     floors = [1e-9 * (1.0 + float(np.max(np.abs(base_mean[:, i])))) for i in range(n)]
@@ -216,7 +237,10 @@ def check_case(case):
 
     if rel == "pytree":
         name, shapes = TEMPLATES[d][case["template"]]
-        res.nontrivial = len({len(s) for s in shapes}) >= 2
+        matrix_leaf = any(sum(1 for k in sh if k > 1) >= 2 for sh in shapes)
+        if matrix_leaf:
+            res.label("leaf:matrix")
+        res.nontrivial = len({len(s) for s in shapes}) >= 2 or matrix_leaf
         out = run(f"tree:{name}", tree_name=name, tree_shapes=shapes)
         # structure: same tree structure as the state, leading time axis of the requested length
         template = _pack(name, shapes, jnp.zeros((d,)))
